@@ -52,7 +52,7 @@ func genC11(rt *rapid.T) pdCase {
 	for i := 0; i < n; i++ {
 		l := fmt.Sprintf("s%d", i)
 		st := pdStep{
-			Kind: rapid.SampledFrom([]string{"poll", "poll", "poll", "post", "post", "postBlocked", "postBlocked", "release", "release", "abortPoll", "abortPost", "appSend", "appSend", "appClose", "wait", "heartbeat"}).Draw(rt, l+".kind"),
+			Kind: rapid.SampledFrom([]string{"poll", "poll", "poll", "post", "post", "postBlocked", "postBlocked", "release", "release", "abortPoll", "abortPost", "postWhileHandlerBusy", "appSend", "appSend", "appClose", "wait", "heartbeat"}).Draw(rt, l+".kind"),
 			Sess: rapid.IntRange(0, c.NSess-1).Draw(rt, l+".sess"),
 			N:    rapid.IntRange(1, 5).Draw(rt, l+".n"),
 		}
@@ -93,17 +93,24 @@ func runC11(c pdCase) (fail string, stats map[string]bool) {
 	var ss []*pdSess
 	bySid := map[string]*pdSess{}
 	var hookFail string
+	var parkMsg chan struct{}
+	parkedInMsg := false
 	w.MsgHook = func(sr *SessRec, p Pkt) {
 		s := bySid[sr.Sid]
-		if s == nil || s.inPost == nil {
-			return
+		if s != nil && s.inPost != nil {
+			// a message of the payload is being delivered: its request must not have been acknowledged yet
+			s.inPost.mu.Lock()
+			acked := s.inPost.Responded && s.inPost.Status == 200
+			s.inPost.mu.Unlock()
+			if acked && hookFail == "" {
+				hookFail = fmt.Sprintf("message %v delivered after its data request had already been acknowledged", p)
+			}
 		}
-		// a message of the payload is being delivered: its request must not have been acknowledged yet
-		s.inPost.mu.Lock()
-		responded := s.inPost.Responded
-		s.inPost.mu.Unlock()
-		if responded && hookFail == "" {
-			hookFail = fmt.Sprintf("message %v delivered after its data request had already been acknowledged", p)
+		if ch := parkMsg; ch != nil {
+			// a slow application listener: the payload of the current data request is still being processed
+			parkMsg = nil
+			parkedInMsg = true
+			<-ch
 		}
 	}
 	for i := 0; i < c.NSess; i++ {
@@ -275,6 +282,47 @@ func runC11(c pdCase) (fail string, stats map[string]bool) {
 					stats["multi-packet-ack"] = true
 				}
 			}
+		case "postWhileHandlerBusy":
+			// the first request's body has been read completely, its message listener is still running
+			if s.closed || s.post != nil {
+				break
+			}
+			pk1 := mkMsgs(s, st.N)
+			ch := make(chan struct{})
+			parkMsg, parkedInMsg = ch, false
+			e1 := pc.StartPost(pk1, false)
+			s.inPost = e1
+			Settle()
+			if !parkedInMsg {
+				parkMsg = nil
+				close(ch)
+				Settle()
+				s.inPost = nil
+				s.accepted = append(s.accepted, e1)
+				s.wantMsgs = append(s.wantMsgs, pk1...)
+				break
+			}
+			stats["data-request-while-handler-busy"] = true
+			if e1.Snap().Responded {
+				close(ch)
+				return fmt.Sprintf("%s: data request acknowledged while a message of its payload is still being handled", what), stats
+			}
+			pk2 := mkMsgs(s, 1)
+			e2 := pc.StartPost(pk2, false)
+			Settle()
+			close(ch)
+			Settle()
+			s.inPost = nil
+			// e1 is still outstanding when e2 arrives: e2 is the overlapping one
+			s.accepted = append(s.accepted, e1)
+			s.refused = append(s.refused, e2)
+			// the overlap closes the session while e1's payload is half way: what was delivered is a prefix of it
+			extra := s.sr.Msgs[min(len(s.wantMsgs), len(s.sr.Msgs)):]
+			if !isPrefix(extra, pk1) || len(extra) == 0 {
+				return fmt.Sprintf("%s: delivered %s of the payload %s", what, pktsString(extra), pktsString(pk1)), stats
+			}
+			s.wantMsgs = append(s.wantMsgs, extra...)
+			closeCause(s, "transport error")
 		case "release":
 			if s.post == nil {
 				break
@@ -363,8 +411,13 @@ func runC11(c pdCase) (fail string, stats map[string]bool) {
 			s.sr.Sock.Close(false)
 			Settle()
 			closeCause(s, "forced close")
-			if s.poll == nil {
-				// no poll pending: the close is buffered; it completes with the next poll
+			// the client keeps polling: a buffered close completes with the next poll, or the one after it
+			// when the writer goroutine had already passed the point where it appends the close packet
+			for k := 0; k < 3 && len(s.sr.Closes) == 0; k++ {
+				if s.poll != nil && !s.poll.Snap().Responded {
+					break
+				}
+				pc.Pump()
 				e := pc.StartPoll()
 				Settle()
 				s.accepted = append(s.accepted, e)
@@ -453,7 +506,7 @@ func TestC11PollingDiscipline(t *testing.T) {
 			rt.Fatalf("%v: %s", c, clipStr(res.Leak, 1500))
 		}
 	})
-	col.RequireClasses(t, "overlapping-poll", "overlapping-data-request", "aborted-poll", "aborted-data-request", "stalled-body-released", "poll-released-by-close", "poll-answered-by-send", "multi-packet-ack", "undisturbed-session-ok", "request-after-close")
+	col.RequireClasses(t, "overlapping-poll", "overlapping-data-request", "aborted-poll", "aborted-data-request", "stalled-body-released", "poll-released-by-close", "poll-answered-by-send", "multi-packet-ack", "undisturbed-session-ok", "request-after-close", "data-request-while-handler-busy")
 }
 
 const sigTruncatedUpload = "aborted-upload-truncated-payload-processed"
